@@ -16,7 +16,8 @@ Nothing in this module knows z3.
 
 class Loop(object):
     def __init__(self, invariant=None, modifies=None, unroll=False, ghost_updates=None,
-                 frame=None):
+                 frame=None, broadcast=None):
+        self.broadcast = broadcast        # (contract id, expected method name | None)
         self.invariant = _labelled(invariant)
         self.modifies = modifies          # optional explicit havoc set (field names)
         self.unroll = unroll
